@@ -35,7 +35,10 @@ func (p *Path) builtin(name string, args []Value, site ssa.Instruction) Value {
 		case *ArrayV:
 			return tc.Const(64, uint64(len(x.Elems)))
 		case *ChanV:
-			return tc.Const(64, 0)
+			if x == nil {
+				return tc.Const(64, 0)
+			}
+			return tc.Const(64, uint64(x.Cap))
 		}
 	case "append":
 		return p.appendOp(args[0].(*SliceV), args[1].(*SliceV), site)
@@ -504,7 +507,7 @@ func (p *Path) selectOp(fr *Frame, in *ssa.Select) Value {
 	for i, st := range in.States {
 		ch, _ := p.get(fr, st.Chan).(*ChanV)
 		if st.Dir == types.SendOnly {
-			if ch != nil {
+			if ch != nil && len(ch.Buf) < ch.Cap {
 				ready = append(ready, i)
 			}
 		} else if ch != nil && len(ch.Buf) > 0 {
